@@ -367,7 +367,13 @@ func (u *upstreamSrv) handle(w http.ResponseWriter, r *http.Request) {
 		if spec.ETag != "" {
 			h.Set("Etag", spec.ETag)
 		}
-		http.ServeContent(w, r, "", spec.ModTime, bytes.NewReader(spec.Body))
+		content := spec.Body
+		if spec.Encoding != "" {
+			// validators and an encoded representation (the scenarios that use both send no Range)
+			content = encodeBody(spec.Encoding, spec.Body)
+			h.Set("Content-Encoding", strings.TrimSuffix(spec.Encoding, "-multi"))
+		}
+		http.ServeContent(w, r, "", spec.ModTime, bytes.NewReader(content))
 		return
 	}
 	data := encodeBody(spec.Encoding, spec.Body)
